@@ -214,6 +214,7 @@ func parseCommentNode(parsingRegex *regexp.Regexp, comment gast.CommentNode) (At
 	if matchIndices == nil {
 		return Attribute{}, false, nil
 	}
+	rebalanceJsonGroup(text, matchIndices)
 
 	name, _ := getGroupString(comment.Text, matchIndices, 1)                 // Attr. name
 	value, _ := getGroupString(comment.Text, matchIndices, 2)                // Attr. Value (inside parentheses)
@@ -235,6 +236,53 @@ func parseCommentNode(parsingRegex *regexp.Regexp, comment gast.CommentNode) (At
 		Description:     description,
 		Comment:         comment,
 	}, true, nil
+}
+
+// rebalanceJsonGroup narrows the greedy JSON5 group (3) to its first balanced, string-aware object when that
+// object is directly followed by the closing parenthesis and a description; the remainder, e.g. `see {x})`,
+// then belongs to the description group (4) rather than to the JSON5 text.
+func rebalanceJsonGroup(text string, matchIndices []int) {
+	startByte, endByte, ok := getGroupOffsets(matchIndices, 3)
+	if !ok || len(matchIndices) < 10 {
+		return
+	}
+
+	depth := 0
+	var quote byte
+	for i := startByte; i < endByte; i++ {
+		char := text[i]
+		if quote != 0 {
+			if char == '\\' {
+				i++
+			} else if char == quote {
+				quote = 0
+			}
+			continue
+		}
+
+		switch char {
+		case '"', '\'':
+			quote = char
+		case '{', '[':
+			depth++
+		case '}', ']':
+			depth--
+			if depth != 0 {
+				continue
+			}
+			rest := text[i+1:]
+			if i+1 == endByte || char != '}' || !strings.HasPrefix(rest, ")") {
+				return
+			}
+			description := strings.TrimLeft(rest[1:], " \t")
+			if description == "" || description == rest[1:] {
+				return
+			}
+			matchIndices[7] = i + 1
+			matchIndices[8], matchIndices[9] = len(text)-len(description), len(text)
+			return
+		}
+	}
 }
 
 func getPropertiesRange(comment gast.CommentNode, matchIndices []int) common.ResolvedRange {
